@@ -510,6 +510,56 @@ def shrink(world_cls, plan, violation, scratch_root, budget_s=60.0, log=None):
     return out, violation
 
 
+def run_plans(world_cls, plans, workers, scratch_root, timeout=120.0):
+    """execute explicit plans (no PRNG) in forked children, `workers` at a time; returns results in order"""
+    results = [None] * len(plans)
+    failures = []
+    procs = []
+    for w in range(workers):
+        r, wfd = os.pipe()
+        pid = os.fork()
+        if pid == 0:
+            code = 0
+            try:
+                os.close(r)
+                out = os.fdopen(wfd, "wb")
+                for i in range(w, len(plans), workers):
+                    try:
+                        res = replay_plan(world_cls, plans[i], scratch_root, timeout=timeout, tag=f"enum{w}_{i}")
+                        msg = ("res", i, {k: res[k] for k in ("violation", "digest", "executed", "faults", "probes", "nontrivial")})
+                    except ChildFailure as e:
+                        msg = ("fail", i, str(e))
+                    data = pickle.dumps(msg, protocol=pickle.HIGHEST_PROTOCOL)
+                    out.write(struct.pack("<Q", len(data)))
+                    out.write(data)
+                    out.flush()
+                out.close()
+            except BaseException:
+                code = 4
+            finally:
+                os._exit(code)
+        os.close(wfd)
+        procs.append((pid, r))
+    for pid, r in procs:
+        buf = bytearray()
+        while True:
+            chunk = os.read(r, 1 << 20)
+            if not chunk:
+                break
+            buf += chunk
+        os.close(r)
+        os.waitpid(pid, 0)
+        while len(buf) >= 8:
+            (n,) = struct.unpack("<Q", bytes(buf[:8]))
+            msg = pickle.loads(bytes(buf[8:8 + n]))
+            del buf[:8 + n]
+            if msg[0] == "res":
+                results[msg[1]] = msg[2]
+            else:
+                failures.append((msg[1], msg[2]))
+    return results, failures
+
+
 # --------------------------------------------------------------------------------------
 # known findings
 # --------------------------------------------------------------------------------------
